@@ -60,6 +60,11 @@ One can reverse a captured panic stack trace as follows:
 		}
 
 		// Package paths are obfuscated, too.
+		// In symbol names, such as the function names of a stack trace,
+		// the toolchain escapes the original import path; see [symbolPathPrefix].
+		if escaped := symbolPathPrefix(lpkg.ImportPath); escaped != lpkg.ImportPath {
+			replaces = append(replaces, hashWithPackage(lpkg, lpkg.ImportPath)+".", escaped+".")
+		}
 		addHashedWithPackage(lpkg.ImportPath)
 
 		// Assembly filenames are obfuscated in a simple way.
@@ -169,6 +174,27 @@ One can reverse a captured panic stack trace as follows:
 		return errJustExit(1)
 	}
 	return nil
+}
+
+// symbolPathPrefix mirrors cmd/internal/objabi.PathToPrefix: the form in which
+// the toolchain spells an import path as the prefix of a symbol name.
+// Dots in the last path element, percent signs, double quotes, control characters
+// and non-ASCII bytes are percent-escaped, e.g. "gopkg.in/yaml%2ev2.Unmarshal".
+func symbolPathPrefix(path string) string {
+	const hex = "0123456789abcdef"
+	slash := strings.LastIndexByte(path, '/')
+	var b strings.Builder
+	for i := 0; i < len(path); i++ {
+		c := path[i]
+		if c <= ' ' || (c == '.' && i > slash) || c == '%' || c == '"' || c >= 0x7F {
+			b.WriteByte('%')
+			b.WriteByte(hex[c>>4])
+			b.WriteByte(hex[c&0xF])
+		} else {
+			b.WriteByte(c)
+		}
+	}
+	return b.String()
 }
 
 func reverseContent(w io.Writer, r io.Reader, repl *strings.Replacer) (bool, error) {
